@@ -1219,7 +1219,9 @@ impl Engine for GroupEngine {
     }
     fn eval(&self, bytes: &[u8], trace: bool) -> Eval {
         let case = gen_group_case(bytes, &self.gp);
+        crate::driver::phase_begin();
         let mut out = run_group_case(&case, cfg!(feature = "cfg-std"), trace);
+        crate::driver::phase_mark();
         crate::oracle::check_trace(&mut out.run.world);
         let nontrivial = out.run.inconclusive.is_none() && group_nontrivial(&case, &out);
         let labels = group_labels(&case, &out);
